@@ -9,7 +9,7 @@
 id="$1"; patch="$2"; demo="$3"; shift 3
 wt="/tmp/seedwt_$id"
 git -C /repo worktree remove --force "$wt" >/dev/null 2>&1
-git -C /repo worktree add -q "$wt" HEAD || exit 2
+git -C /repo worktree add -q "$wt" "${BASE:-HEAD}" || exit 2
 cd "$wt" || exit 2
 /venv/bin/python -B -W ignore "$demo" "$wt/src" >/dev/null 2>&1; clean=$?
 git apply "$patch" || { echo "PATCH DOES NOT APPLY"; git -C /repo worktree remove --force "$wt"; exit 2; }
